@@ -1106,6 +1106,28 @@ func ruleTwinAgree(c *Ctx) {
 				bad = "only " + fnName(fb) + " has the path [" + k + "]"
 			}
 		}
+		if bad != "" && len(sa) <= 2 && len(sb) <= 2 {
+			// both twins reduced to thin wrappers of one shared implementation that takes the designed
+			// difference as a constant argument
+			mask := func(m map[string]bool) map[string]bool {
+				out := map[string]bool{}
+				for k := range m {
+					k = strings.NewReplacer(",true)", ",_)", ",false)", ",_)").Replace(k)
+					out[k] = true
+				}
+				return out
+			}
+			ma, mb := mask(sa), mask(sb)
+			same := len(ma) == len(mb)
+			for k := range ma {
+				if !mb[k] {
+					same = false
+				}
+			}
+			if same {
+				bad = ""
+			}
+		}
 		if os.Getenv("RV_DEBUG") == "twin" {
 			for k := range sa {
 				fmt.Println("A:", k)
@@ -1144,6 +1166,37 @@ func ruleGCUnsend(c *Ctx) {
 	holders, sents := gcRecordFields(p, fn)
 	sfInd := p.Field("server.Subscription.indirect")
 	sfSent := p.Field("server.Subscription.indirectsent")
+	if len(holders) == 0 || len(sents) == 0 {
+		// the record is filled through a constructor: its members are found by their names, next to the mark
+		for _, tn := range p.Typs["server"].Scope().Names() {
+			o, ok := p.Typs["server"].Scope().Lookup(tn).(*types.TypeName)
+			if !ok {
+				continue
+			}
+			st, ok := o.Type().Underlying().(*types.Struct)
+			if !ok {
+				continue
+			}
+			hasMark := false
+			for i := 0; i < st.NumFields(); i++ {
+				if types.Identical(st.Field(i).Type(), gcT) {
+					hasMark = true
+				}
+			}
+			if !hasMark {
+				continue
+			}
+			for i := 0; i < st.NumFields(); i++ {
+				f := st.Field(i)
+				if sfInd != nil && strings.EqualFold(f.Name(), sfInd.Name()) {
+					holders[f] = true
+				}
+				if sfSent != nil && strings.EqualFold(f.Name(), sfSent.Name()) {
+					sents[f] = true
+				}
+			}
+		}
+	}
 	isMark := func(f *types.Var) bool { return f != nil && types.Identical(f.Type(), gcT) }
 	// does v stand for "the root was sent"?
 	var wasSent func(v ssa.Value, depth int) bool
@@ -1178,12 +1231,17 @@ func ruleGCUnsend(c *Ctx) {
 			if n == nil || idx < 0 || len(n.In) == 0 {
 				return false
 			}
+			sites := 0
 			for _, e := range n.In {
+				if e.Caller != nil && e.Caller.Func != nil && e.Caller.Func.Synthetic != "" && (p.CG.Nodes[e.Caller.Func] == nil || len(p.CG.Nodes[e.Caller.Func].In) == 0) {
+					continue // a method wrapper nobody calls
+				}
 				if e.Site == nil || idx >= len(callArgs(e.Site.Common())) || !wasSent(callArgs(e.Site.Common())[idx], depth+1) {
 					return false
 				}
+				sites++
 			}
-			return true
+			return sites > 0
 		case *ssa.Extract:
 			if cl, ok := x.Tuple.(*ssa.Call); ok {
 				if sf := cl.Call.StaticCallee(); sf != nil && p.isRepoFn(sf) {
@@ -1432,7 +1490,11 @@ func unmarshalerOnly(p *Prog, fn *ssa.Function, depth int) bool {
 // from -1 and could never be released.
 func ruleRemoveCountHeld(c *Ctx) {
 	p := c.P
-	fn := p.Fn("(*server.wsConn).removeCount")
+	fam := p.FnFamily("(*server.wsConn).removeCount")
+	var fn *ssa.Function
+	if len(fam) > 0 {
+		fn = fam[0]
+	}
 	fs := []*types.Var{p.Field("server.Subscription.direct"), p.Field("server.Subscription.indirect"), p.Field("server.Subscription.indirectsent")}
 	if fn == nil || fs[0] == nil || fs[1] == nil || fs[2] == nil {
 		c.undecided("(*server.wsConn).removeCount", "anchor", "-", "not found")
@@ -1457,7 +1519,11 @@ func ruleRemoveCountHeld(c *Ctx) {
 		return false, false
 	}
 	n := 0
-	for _, g := range p.withNewHelpers(fn) {
+	var scope []*ssa.Function
+	for _, m := range fam {
+		scope = append(scope, p.withNewHelpers(m)...)
+	}
+	for _, g := range scope {
 		for _, in := range instrsOf(g) {
 			st, ok := in.(*ssa.Store)
 			if !ok {
@@ -1941,6 +2007,10 @@ func ruleResettingGate(c *Ctx) {
 			}
 			n++
 			c.inst(1)
+			if !p.guardedUp(call, notResetting, 0) && discardedByKind(p, call, fReset) {
+				c.ok(fnName(g), "a state event is applied to the cached copy only while no re-fetch is outstanding ("+calleeName(call.Common())+")", p.InstrPos(call), "while resetting, the event kinds that modify the copy are discarded up front")
+				continue
+			}
 			c.check(p.guardedUp(call, notResetting, 0), fnName(g), "a state event is applied to the cached copy only while no re-fetch is outstanding ("+calleeName(call.Common())+")", p.InstrPos(call), "behind resetting == false",
 				"the event is applied while the re-fetch of a reset is outstanding: the answer is diffed against a copy the clients never saw in that state, and they are sent the change twice or not at all")
 		}
@@ -2405,4 +2475,60 @@ func ruleLazyInit(c *Ctx) {
 	if n == 0 {
 		c.note("no lazily created container filled in a loop")
 	}
+}
+
+// discardedByKind: the function of call tests `resetting` and, on its true edge,
+// next tests the kind of the event (a condition reading ResourceEvent.Event);
+// one edge of that second test cannot reach the call — the modifying kinds are
+// discarded there. (`if rs.resetting && isModifyingEvent(r.Event) { return }`)
+func discardedByKind(p *Prog, call ssa.Instruction, fReset *types.Var) bool {
+	fEvent := p.Field("rescache.ResourceEvent.Event")
+	fn := call.Block().Parent()
+	reach := func(from *ssa.BasicBlock) bool {
+		seen := map[*ssa.BasicBlock]bool{}
+		work := []*ssa.BasicBlock{from}
+		for len(work) > 0 {
+			b := work[len(work)-1]
+			work = work[:len(work)-1]
+			if seen[b] {
+				continue
+			}
+			seen[b] = true
+			if b == call.Block() {
+				return true
+			}
+			work = append(work, b.Succs...)
+		}
+		return false
+	}
+	for _, b := range fn.Blocks {
+		i := blockIf(b)
+		if i == nil {
+			continue
+		}
+		v, neg := ssa.Value(i.Cond), false
+		if u, ok := v.(*ssa.UnOp); ok && u.Op == token.NOT {
+			v, neg = u.X, true
+		}
+		if f, _ := fieldLoad(v); f != fReset || f == nil {
+			continue
+		}
+		tb := b.Succs[0]
+		if neg {
+			tb = b.Succs[1]
+		}
+		i2 := blockIf(tb)
+		if i2 == nil || len(tb.Preds) != 1 {
+			continue
+		}
+		fs := map[*types.Var]bool{}
+		condFields(p, i2.Cond, 0, fs)
+		if fEvent == nil || !fs[fEvent] {
+			continue
+		}
+		if !reach(tb.Succs[0]) || !reach(tb.Succs[1]) {
+			return true
+		}
+	}
+	return false
 }
